@@ -125,4 +125,29 @@ def St.init (loginOff tlsAvail : Bool) : St := ⟨none, none, loginOff, tlsAvail
 
 def run (s : St) (cs : List Cmd) : St := cs.foldl (fun s c => (step s c).1) s
 
+/-! ### what the client has been told
+
+The capability list reaches the client in the greeting, in every CAPABILITY answer and in the `[CAPABILITY …]` code of a
+successful LOGIN / AUTHENTICATE; after a successful STARTTLS the client has to forget it (RFC 3501 6.2.1).  `adv` is the
+LOGINDISABLED bit of the list the client holds (`none`: it holds none). -/
+
+structure Wire where
+  st  : St
+  adv : Option Bool
+deriving Repr, DecidableEq
+
+def Wire.init (loginOff tlsAvail : Bool) : Wire := ⟨St.init loginOff tlsAvail, some loginOff⟩
+
+def wstep (w : Wire) (c : Cmd) : Wire × Resp :=
+  let r := step w.st c
+  let adv := match c, r.2 with
+    | .capability, .ok => some r.1.loginOff
+    | .login _, .ok => some r.1.loginOff
+    | .authenticate _ _ _, .ok => some r.1.loginOff
+    | .starttls, .ok => none
+    | _, _ => w.adv
+  (⟨r.1, adv⟩, r.2)
+
+def wrun (w : Wire) (cs : List Cmd) : Wire := cs.foldl (fun w c => (wstep w c).1) w
+
 end Pymap.Conn
